@@ -273,5 +273,158 @@ def collect (cast : CastFn) (t : MetaTable) (w : MWorld) (it : MIter) : Collecte
 
 end MetaTable
 
+/-! ## The provided `Iterator` methods
+
+`MetaIter` / `MetaIterMut` implement `next` only (l.68-105, l.162-202), so every other method of
+`Iterator` is the default of `core::iter::Iterator`, written in terms of `next`: `nth` is
+`advance_by(n)` (call `next` `n` times, dropping each item at once) followed by `next`; `skip`,
+`step_by` and `take` are adapters whose `next` calls the inner `nth` / `next`; `collect`, `fold`,
+`for_each`, `last` and `count` are loops over `next` until `None`. An item that is dropped gives
+its borrow back (`MWorld.release`). These definitions are what the engine's answers for the same
+calls on the real iterators are compared with. -/
+
+namespace MetaTable
+
+/-- the type whose cell an item borrows, given `self.index` after the `next` call that yielded it:
+the call stopped at slot `index - 1` -/
+def slotTy (t : MetaTable) (index : Nat) : Nat := (t.tys[index - 1]?).getD 0
+
+/-- how `advance_by` ended: all `n` steps done, `None` met earlier, or a panic of `next` -/
+inductive AdvOut
+  | ok
+  | short
+  | panic (e : MPanic)
+deriving Repr, DecidableEq
+
+/-- `Iterator::advance_by(n)` (default): `for _ in 0..n { self.next()?; }` — every item is dropped
+as soon as it was yielded -/
+def advanceBy (cast : CastFn) (t : MetaTable) (excl : Bool) : Nat → MWorld → Nat → MWorld × Nat × AdvOut
+  | 0, w, i => (w, i, .ok)
+  | n + 1, w, i =>
+    match t.next cast w ⟨i, excl⟩ with
+    | (w', it', .item _) => advanceBy cast t excl n (w'.release (t.slotTy it'.index)) it'.index
+    | (w', it', .none) => (w', it'.index, .short)
+    | (w', it', .panic e) => (w', it'.index, .panic e)
+
+/-- `Iterator::nth(n)` (default): `self.advance_by(n).ok()?; self.next()` -/
+def nth (cast : CastFn) (t : MetaTable) (w : MWorld) (it : MIter) (n : Nat) : MWorld × MIter × NextOut :=
+  match advanceBy cast t it.excl n w it.index with
+  | (w', i', .ok) => t.next cast w' ⟨i', it.excl⟩
+  | (w', i', .short) => (w', ⟨i', it.excl⟩, .none)
+  | (w', i', .panic e) => (w', ⟨i', it.excl⟩, .panic e)
+
+/-- `Iterator::size_hint` (default): `(0, None)` -/
+def sizeHint (_t : MetaTable) (_it : MIter) : Nat × Option Nat := (0, none)
+
+/-- the adapters of `core::iter` around the iterator (or around `by_ref()` of it) -/
+inductive Adapter
+  /-- the iterator itself -/
+  | plain
+  /-- `Skip { iter, n }` -/
+  | skip (n : Nat)
+  /-- `StepBy { iter, step, first_take }`; the field `step` holds the argument of `step_by` minus
+  one, as in `core` -/
+  | stepBy (step : Nat) (first : Bool)
+  /-- `Take { iter, n }` -/
+  | take (n : Nat)
+deriving Repr, DecidableEq
+
+/-- `next` of the adapter: `Skip::next` is `iter.nth(take(&mut n))` while `n > 0`, then
+`iter.next()`; `StepBy::next` is `iter.nth(if first_take { 0 } else { step })`; `Take::next` is
+`iter.next()` while `n != 0` (then `None` without calling the iterator). -/
+def adNext (cast : CastFn) (t : MetaTable) (excl : Bool) :
+    Adapter → MWorld → Nat → Adapter × MWorld × Nat × NextOut
+  | .plain, w, i =>
+    let r := t.next cast w ⟨i, excl⟩
+    (.plain, r.1, r.2.1.index, r.2.2)
+  | .skip n, w, i =>
+    let r := t.nth cast w ⟨i, excl⟩ n
+    (.skip 0, r.1, r.2.1.index, r.2.2)
+  | .stepBy s first, w, i =>
+    let r := t.nth cast w ⟨i, excl⟩ (if first then 0 else s)
+    (.stepBy s false, r.1, r.2.1.index, r.2.2)
+  | .take 0, w, i => (.take 0, w, i, .none)
+  | .take (n + 1), w, i =>
+    let r := t.next cast w ⟨i, excl⟩
+    (.take n, r.1, r.2.1.index, r.2.2)
+
+/-- what a consuming call leaves behind -/
+structure Ran where
+  world : MWorld
+  index : Nat
+  /-- the items alive at the end, each with the type whose cell it borrows -/
+  kept : List (Nat × TraitPtr)
+  /-- number of items the adapter yielded -/
+  seen : Nat
+  /-- the call ended by this panic -/
+  panic : Option MPanic
+
+/-- `collect::<Vec<_>>()` / `for_each(|x| v.push(x))` / `fold(Vec::new(), push)`: `next` of the
+adapter until `None` or a panic, every item kept. `fuel` bounds the number of calls. -/
+def collectVia (cast : CastFn) (t : MetaTable) (excl : Bool) :
+    Nat → Adapter → MWorld → Nat → List (Nat × TraitPtr) → Ran
+  | 0, _, w, i, kept => ⟨w, i, kept, kept.length, none⟩
+  | fuel + 1, ad, w, i, kept =>
+    match adNext cast t excl ad w i with
+    | (_, w', i', .none) => ⟨w', i', kept, kept.length, none⟩
+    | (_, w', i', .panic e) => ⟨w', i', kept, kept.length, some e⟩
+    | (ad', w', i', .item p) => collectVia cast t excl fuel ad' w' i' (kept ++ [(t.slotTy i', p)])
+
+/-- the accumulator of `last` is overwritten: the item it held is dropped -/
+def dropPrev (w : MWorld) : Option (Nat × TraitPtr) → MWorld
+  | some (pty, _) => w.release pty
+  | none => w
+
+/-- `last()` = `fold(None, |_, x| Some(x))`: the previous item is dropped when the next one has
+arrived -/
+def lastVia (cast : CastFn) (t : MetaTable) (excl : Bool) :
+    Nat → Adapter → MWorld → Nat → Option (Nat × TraitPtr) → Nat → Ran
+  | 0, _, w, i, prev, seen => ⟨w, i, prev.toList, seen, none⟩
+  | fuel + 1, ad, w, i, prev, seen =>
+    match adNext cast t excl ad w i with
+    | (_, w', i', .none) => ⟨w', i', prev.toList, seen, none⟩
+    | (_, w', i', .panic e) => ⟨w', i', prev.toList, seen, some e⟩
+    | (ad', w', i', .item p) =>
+      lastVia cast t excl fuel ad' (dropPrev w' prev) i' (some (t.slotTy i', p)) (seen + 1)
+
+/-- `count()` = `fold(0, |n, _| n + 1)`: every item is dropped at once -/
+def countVia (cast : CastFn) (t : MetaTable) (excl : Bool) :
+    Nat → Adapter → MWorld → Nat → Nat → Ran
+  | 0, _, w, i, seen => ⟨w, i, [], seen, none⟩
+  | fuel + 1, ad, w, i, seen =>
+    match adNext cast t excl ad w i with
+    | (_, w', i', .none) => ⟨w', i', [], seen, none⟩
+    | (_, w', i', .panic e) => ⟨w', i', [], seen, some e⟩
+    | (ad', w', i', .item _) => countVia cast t excl fuel ad' (w'.release (t.slotTy i')) i' (seen + 1)
+
+/-- unwinding out of `collect` / `fold` / `last`: the partial `Vec` / accumulator is dropped -/
+def Ran.unwind (r : Ran) : Ran :=
+  { r with world := r.kept.foldl (fun w e => w.release e.1) r.world, kept := [] }
+
+/-- what `a.zip(b).collect::<Vec<_>>()` leaves behind (`Zip::next`: `let x = a.next()?;
+let y = b.next()?; Some((x, y))`) -/
+structure Zipped where
+  world : MWorld
+  indexA : Nat
+  indexB : Nat
+  pairs : List ((Nat × TraitPtr) × (Nat × TraitPtr))
+  panic : Option MPanic
+
+def zipN (cast : CastFn) (t : MetaTable) (exclA exclB : Bool) :
+    Nat → MWorld → Nat → Nat → List ((Nat × TraitPtr) × (Nat × TraitPtr)) → Zipped
+  | 0, w, ia, ib, acc => ⟨w, ia, ib, acc, none⟩
+  | fuel + 1, w, ia, ib, acc =>
+    match t.next cast w ⟨ia, exclA⟩ with
+    | (w1, a', .none) => ⟨w1, a'.index, ib, acc, none⟩
+    | (w1, a', .panic e) => ⟨w1, a'.index, ib, acc, some e⟩
+    | (w1, a', .item x) =>
+      let tx := t.slotTy a'.index
+      match t.next cast w1 ⟨ib, exclB⟩ with
+      | (w2, b', .none) => ⟨w2.release tx, a'.index, b'.index, acc, none⟩          -- `x` dropped by `?`
+      | (w2, b', .panic e) => ⟨w2.release tx, a'.index, b'.index, acc, some e⟩      -- `x` dropped by unwinding
+      | (w2, b', .item y) => zipN cast t exclA exclB fuel w2 a'.index b'.index (acc ++ [((tx, x), (t.slotTy b'.index, y))])
+
+end MetaTable
+
 end Meta
 end Shred
